@@ -321,12 +321,22 @@ func runCase(t ev.Failer, c *ev.Collector, sc shrinkCase) (labels []string) {
 	fail := func(key, what string) {
 		c.Fail(t, key, what, sc)
 	}
-	// both(cmd) applies a concurrent write to S and T and requires equal replies
+	// both(cmd) applies a concurrent write to S and T and requires equal replies.
+	// While the revive object is due (reviveState 1: deadline elapsed, not yet
+	// lifted) the two sweepers may already have removed it on one side only, so
+	// a generated write that touches it can be answered differently: that makes
+	// the case inconclusive (diverged), like everything that follows from it.
+	diverged := false
+	reviveState := 0
 	both := func(cmd []string) {
 		vs, err1 := cs.Do(cmd...)
 		vt, err2 := ct.Do(cmd...)
 		if err1 != nil || err2 != nil {
 			t.Fatalf("transport: %v %v", err1, err2)
+		}
+		if !vs.Equal(vt) && (reviveState == 1 || diverged) {
+			diverged = true
+			return
 		}
 		if !vs.Equal(vt) {
 			fail("shrink-changes-served-state", fmt.Sprintf("during the shrink %s answered %s on the shrinking server and %s on the twin", t38.CmdString(cmd), vs, vt))
@@ -335,7 +345,6 @@ func runCase(t ev.Failer, c *ev.Collector, sc shrinkCase) (labels []string) {
 	// bothLoose is both() for commands whose outcome depends on whether the
 	// background sweeper has already run (elapsed deadlines): differing replies
 	// make the case inconclusive instead of a violation.
-	diverged := false
 	bothLoose := func(cmd []string) {
 		vs, err1 := cs.Do(cmd...)
 		vt, err2 := ct.Do(cmd...)
@@ -381,7 +390,6 @@ func runCase(t ev.Failer, c *ev.Collector, sc shrinkCase) (labels []string) {
 	if sc.Revive && len(scan) > 0 && len(scan[0].ids) > 0 {
 		reviveKey, reviveID = scan[0].key, scan[0].ids[0]
 	}
-	reviveState := 0
 	armed.Lock()
 	isArmed = true
 	armed.Unlock()
